@@ -266,3 +266,19 @@ CLAIMED["C02"] = {
             "generators; the calibration of bound and deadline. The convergence verdict is bounded simulation, not proof.",
     "technique": "Lean 4 theorems for the control law's structure + bit-exact differential correspondence of the servo on closed-loop histories + closed-loop simulation oracle (sampling) for convergence",
 }
+
+CLAIMED["C19"] = {
+    "text": "Proof for the formatter, end-to-end correspondence for the rest. Lean model of the exporter's format.rs (every metric: name, "
+            "help, unit, labels, value; label escaping; block layout; HTTP header) including an exact model of Rust's shortest-round-trip "
+            "float rendering. Theorems for every state: the Content-Length announced is the body's length in octets; booleans are "
+            "exported as 1 for true, 0 for false under their names; offset_from_master_nanoseconds and mean_delay_nanoseconds carry the "
+            "nanosecond value; one port_state sample per port, one path_trace_list sample per entry plus 'self'; an escaped label value "
+            "contains no raw line feed and un-escapes to the original for every string. Tie: each run sends hundreds (thorough: thousands) "
+            "of states through the daemon's real serde representations, a unix socket, the real exporter process and HTTP, and compares "
+            "the complete response with the model byte for byte; an independently written reader of the response checks framing, the "
+            "OpenMetrics grammar and every sample value against the state. Four genuine defects found and repaired by fix: commits "
+            "(booleans inverted; seconds exported as nanoseconds; documents over 16 KiB cut short -> 500 for instances with dozens of "
+            "ports; floats altered by one ulp in the JSON hop). Snapshot getters = live data sets: C11's theorems and view stream.",
+    "note": "Trusted: Lean kernel; generators; the independent exposition reader. serde_json and tokio are exercised, not modelled.",
+    "technique": "Lean 4 theorems over a model of the formatter (structural induction for escaping, simp over the metric table) + byte-exact end-to-end correspondence through the real exporter process + independent response oracle",
+}
